@@ -71,10 +71,12 @@ def streams(rng, tier, ctx):
             lim = (k, r.pick([k, 8]))
             sim = E.EpSim(r, inter=it)
             sim.srv(lim[0], lim[1], r.pick([0, 1]), dict(E.DEFAULT_EP))
-            lat = r.pick([0, 5_000_000])
+            theme = r.pick(["cross", "abandoned", "mixed", "mixed"])       # how the first k connections end
+            lat = r.pick([0, 5_000_000]) if theme != "cross" else 5_000_000   # crossing needs both requests in flight at once
             nets = {"c2s": E.Net(latency=lat), "s2c": E.Net(latency=lat)}
             dt = r.pick([50_000_000, 200_000_000])
-            abandoned = set(j for j in range(k) if r.chance(1, 4))      # handshakes that never complete: every SYN-ACK is lost
+            # handshakes that never complete: every SYN-ACK is lost
+            abandoned = set(j for j in range(k) if (theme == "abandoned" and (j == 0 or r.chance(1, 2))) or (theme == "mixed" and r.chance(1, 4)))
             for j in abandoned:
                 nets[(j, "s2c")] = E.Net(loss=1000)
             for j in range(k):
@@ -83,7 +85,7 @@ def streams(rng, tier, ctx):
             for j in range(k):
                 if j in abandoned:
                     continue
-                how = r.pick(["cross", "cross", "sdisc", "cdiscnow", "sdrop", "silence"])
+                how = r.pick(["cross", "cross", "sdisc", "cdiscnow", "sdrop", "silence"]) if theme != "cross" else "cross"
                 if how == "cross":
                     sim.call(r.pick(["sdisc", "sdiscnow"]), j); sim.call(r.pick(["cdisc", "cdiscnow"]), j)
                 elif how == "silence":
@@ -91,7 +93,8 @@ def streams(rng, tier, ctx):
                 else:
                     sim.call(how, j)
             big = 1_000_000_000
-            sim.run(80, big, nets)                      # 80 s: retry budgets (22 s), active timeout (20 s) and the closed linger (20 s) are over
+            sim.run(125, big, nets)                     # 125 s: every entry (handshake / disconnect retries 22 s, active timeout 20 s, closed linger 20 s) is gone
+            #                                             and the last datagram of any of them is more than 70 s old
             sim.settled_from = sim.time
             for j in range(k, 2 * k):
                 sim.cli(j, dict(E.DEFAULT_EP), nets)
@@ -129,8 +132,10 @@ def oracle(stream, cid, ops, outs):
     #     closed linger 20 s), so a refusal while fewer than min(max_total, max_active) other addresses were heard from or
     #     written to in that period cannot be justified
     HORIZON = 70_000 * 10**6
-    for (t, tag, p, x) in sev:
-        if tag == "E" and x == "ServerFull":
+    refusals = [(t, p) for (t, tag, p, x) in sev if tag == "E" and x == "ServerFull"] + \
+               [(t, i) for i, evs in cev.items() if isinstance(i, int) for (t, tag, x) in evs if tag == "E" and x == "ServerFull"]
+    for (t, p) in sorted(refusals):
+        if True:
             recent = set(q for (tt, dr, q, d) in delivered if q != p and t - HORIZON < tt <= t)
             recent |= set(q for (q, dr), dgs in log.items() if q != p and any(t - HORIZON < d["time"] <= t for d in dgs))
             if len(recent) < min(max_total, max_active) and not fails:
